@@ -135,6 +135,17 @@ func genValue(t *rapid.T) ValueCase {
 	c.ReqUser = genString(t, "reqUser")
 	c.ReqIP = genString(t, "reqIP")
 	c.ReqHost = genString(t, "reqHost")
+	// values shaped like what the field usually holds, in forms a normaliser would rewrite (the codec must
+	// not: every field is opaque text)
+	if rapid.IntRange(0, 3).Draw(t, "shaped") == 2 {
+		c.ReqIP = rapid.SampledFrom([]string{"10.1.2.3", "010.001.002.003", "::ffff:10.1.2.3", "2001:DB8::1", "2001:db8:0:0:0:0:0:1", "0:0:0:0:0:0:0:1", "::1", "fe80::1%eth0", "[::1]", "127.0.0.1:22", " 10.0.0.1", "10.0.0.1 "}).Draw(t, "shapedIP")
+		c.ReqHost = rapid.SampledFrom([]string{"Host.Example.COM", "host.example.com.", "xn--bcher-kva.example", "bücher.example", "HOST", "host ", "10.0.0.1", "localhost"}).Draw(t, "shapedHost")
+		c.ReqUser = rapid.SampledFrom([]string{"Alice", "alice@example.com", "EXAMPLE\\alice", "alice ", " alice", "root", "0", "alice:touch"}).Draw(t, "shapedUser")
+		c.TransID = rapid.SampledFrom([]string{"00000000AA", "00000000aa", "0x1f", "1F-2E", "0000000001", "+1", "1e3", " 15537d7b63"}).Draw(t, "shapedTrans")
+		if !c.PrinsNil && len(c.Prins) > 0 {
+			c.Prins[0] = rapid.SampledFrom([]string{"Alice", "ops:touch", "deploy:notouch", ":touch", "alice,bob", "alice "}).Draw(t, "shapedPrin")
+		}
+	}
 	flags := rapid.IntRange(0, 15).Draw(t, "flags")
 	c.FF, c.HW, c.Headless, c.Nonce = flags&1 != 0, flags&2 != 0, flags&4 != 0, flags&8 != 0
 	c.Touch = rapid.SampledFrom([]int{-1, 0, 1, 1, 1, 2, 3, 4, 7, 1 << 40, -(1 << 40)}).Draw(t, "touch")
@@ -199,7 +210,7 @@ func execValue(c ValueCase) (vh.Outcome, error) {
 func TestC05Value(t *testing.T) {
 	vh.Run(t, vh.Spec[ValueCase]{
 		Property: "C05", Name: "TestC05Value",
-		Rule: "KeyID values: 16 flag combinations x touch policy in {-1..4,7,+-2^40} x usage x version in {0,1,2,3,255..257,65535} x nil/0..4 principals x strings with JSON metacharacters and non-ASCII; oracle: Marshal succeeds iff ver=1 and consistent (independent predicate), then Unmarshal(Marshal(k)) deep-equals k and the text carries all 11 required names. Non-trivial: at least one flag set or touch policy outside 0..3; distinct by canonical Case hash.",
+		Rule: "KeyID values: 16 flag combinations x touch policy in {-1..4,7,+-2^40} x usage x version in {0,1,2,3,255..257,65535} x nil/0..4 principals x strings with JSON metacharacters and non-ASCII, and field-shaped values in non-canonical forms (IP literals such as ::ffff:10.1.2.3 or 2001:DB8::1, mixed-case and dot-terminated host names, padded or upper-case ids); oracle: Marshal succeeds iff ver=1 and consistent (independent predicate), then Unmarshal(Marshal(k)) deep-equals k and the text carries all 11 required names. Non-trivial: at least one flag set or touch policy outside 0..3; distinct by canonical Case hash.",
 		Gen:  genValue, Exec: execValue,
 	})
 }
